@@ -90,6 +90,11 @@ func scnC07Sshd(rc *RunCtx) {
 	t := rc.Spec
 	form := sshdForms[rc.Sub%len(sshdForms)]
 	m := GenSshdMsg(t, form, 1+t.Choose(9, "uniq"))
+	if t.Choose(10, "pid.odd") == 9 {
+		// what rsyslog puts into %PROCID% is not always a number
+		m.PID = []string{"-", "sshd", "99999999999999999999", "0017", "+5"}[t.Choose(5, "pid.odd.token")]
+		rc.Sim.Count("c07.odd_pid_token")
+	}
 	pad := t.Choose(3, "pad")
 	line := m.Line(pad)
 	ctx, cancel := context.WithCancel(context.Background())
